@@ -54,7 +54,7 @@ SameAsFunctional == phase = "done" => LET ps == Pieces(names, MCFmt) IN Out = Mo
 
 (* ---- case export ---- *)
 ShebangFirst(ns) == \A i \in DOMAIN ns : ns[i] = "shebang" => i = 1
-\* (names only; checks/c15.py assembles the pieces from the exported catalogue - a lookup, no judgement)
+\* (names only; checks/c15.py looks the source bytes of each piece up in the exported catalogue)
 Cases == LET SS == {ns \in SeqsUpTo(GenAlpha, GenLen) : ShebangFirst(ns) /\ StructDefined(Pieces(ns, "txt"))}
              GP == SetToSeq({pr \in SS \X Fmts : ShowOk(Pieces(pr[1], pr[2]), pr[2])})
          IN [c \in 1..Len(GP) |-> [id |-> c, fmt |-> GP[c][2], names |-> GP[c][1]]]
@@ -62,7 +62,7 @@ Cases == LET SS == {ns \in SeqsUpTo(GenAlpha, GenLen) : ShebangFirst(ns) /\ Stru
 CatEntry(CN, NF, c) == LET ai == ((c - 1) \div (9 * NF)) + 1
                            pi == (((c - 1) \div NF) % 9) + 1
                            fi == ((c - 1) % NF) + 1
-                       IN [name |-> CN[ai], pos |-> pi, fmt |-> AllFmts[fi], piece |-> Piece(CN[ai], pi, AllFmts[fi])]
+                       IN [name |-> CN[ai], pos |-> pi, fmt |-> AllFmts[fi], s |-> Piece(CN[ai], pi, AllFmts[fi]).s]
 Catalogue == LET CN == SetToSeq(AllNames) NF == Len(AllFmts) IN [c \in 1..(Len(CN) * 9 * NF) |-> CatEntry(CN, NF, c)]
 ASSUME ndJsonSerialize("cases.ndjson", Cases)
 ASSUME ndJsonSerialize("catalogue.ndjson", Catalogue)
